@@ -392,7 +392,7 @@ impl<T: El> MapWorld<T> {
             OpK::ExtendOverlap | OpK::ExtendRef => true,
             _ => false,
         };
-        let pre_keys: Option<Vec<(u32, u64)>> = if T::TRACKED && !self.cfg.flags.cheap && hands_over_equal_key { Some(harness(|| self.m.iter().map(|(k, _)| (k.id(), k.obj())).collect())) } else { None };
+        let pre_keys: Option<Vec<(u32, u64)>> = if T::IDENT && !self.cfg.flags.cheap && hands_over_equal_key { Some(harness(|| self.m.iter().map(|(k, _)| (k.id(), k.obj())).collect())) } else { None };
         let res = catch(|| self.do_op(op));
         let obs = match res {
             Ok(Ok(o)) => o,
